@@ -60,18 +60,24 @@ type Result struct {
 	Stopped map[ssa.Instruction]bool
 }
 
-// threadable: block b ends in an If whose condition is (a negation chain over) a bool phi of b itself. Entering b
-// over a predecessor edge that carries a constant decides the branch (jump threading): the flag a helper's
-// inlined `return true/false` leaves behind is not a real choice point.
-func threadable(b *ssa.BasicBlock) (*ssa.Phi, bool, bool) {
+// threadable: block b ends in an If whose condition is decided by a phi of b itself: a negation chain over a
+// bool phi, or a comparison of a phi with nil. Entering b over a predecessor edge that carries a constant (or a
+// value known to be non-nil) decides the branch (jump threading): the flag or error a helper's inlined
+// `return …` leaves behind is not a real choice point.
+// nilcmp: the condition is `phi == nil` (neg=false) or `phi != nil` (neg=true).
+func threadable(b *ssa.BasicBlock) (ph *ssa.Phi, neg bool, ok bool) {
+	ph, neg, _, ok = threadableKind(b)
+	return
+}
+
+func threadableKind(b *ssa.BasicBlock) (ph *ssa.Phi, neg bool, nilcmp bool, ok bool) {
 	if len(b.Instrs) == 0 {
-		return nil, false, false
+		return nil, false, false, false
 	}
-	ifi, ok := b.Instrs[len(b.Instrs)-1].(*ssa.If)
-	if !ok {
-		return nil, false, false
+	ifi, isIf := b.Instrs[len(b.Instrs)-1].(*ssa.If)
+	if !isIf {
+		return nil, false, false, false
 	}
-	neg := false
 	v := ifi.Cond
 	for {
 		if u, isU := v.(*ssa.UnOp); isU && u.Op == token.NOT {
@@ -81,16 +87,65 @@ func threadable(b *ssa.BasicBlock) (*ssa.Phi, bool, bool) {
 		}
 		break
 	}
-	ph, isPhi := v.(*ssa.Phi)
-	if !isPhi || ph.Block() != b {
-		return nil, false, false
+	if p, isPhi := v.(*ssa.Phi); isPhi && p.Block() == b {
+		return p, neg, false, true
 	}
-	return ph, neg, true
+	if bo, isB := v.(*ssa.BinOp); isB && (bo.Op == token.EQL || bo.Op == token.NEQ) {
+		x, y := bo.X, bo.Y
+		if IsNilConst(x) {
+			x, y = y, x
+		}
+		if p, isPhi := x.(*ssa.Phi); isPhi && p.Block() == b && IsNilConst(y) {
+			if bo.Op == token.NEQ {
+				neg = !neg
+			}
+			return p, neg, true, true
+		}
+	}
+	return nil, false, false, false
+}
+
+// KnownNonNil: the value cannot be nil — a fresh object, a boxed value, or a package-level error variable that is
+// only ever assigned errors.New/fmt.Errorf results.
+func KnownNonNil(v ssa.Value) bool {
+	switch x := v.(type) {
+	case *ssa.MakeInterface, *ssa.Alloc, *ssa.MakeClosure, *ssa.Function, *ssa.MakeMap, *ssa.MakeChan, *ssa.MakeSlice, *ssa.FieldAddr, *ssa.IndexAddr:
+		return true
+	case *ssa.Call:
+		return IsCallTo(x, "errors.New", "fmt.Errorf")
+	case *ssa.UnOp:
+		if x.Op != token.MUL {
+			return false
+		}
+		g, ok := x.X.(*ssa.Global)
+		if !ok || g.Pkg == nil {
+			return false
+		}
+		n := 0
+		for _, m := range g.Pkg.Members {
+			fn, isF := m.(*ssa.Function)
+			if !isF {
+				continue
+			}
+			for _, b := range fn.Blocks {
+				for _, in := range b.Instrs {
+					if st, isSt := in.(*ssa.Store); isSt && st.Addr == ssa.Value(g) {
+						n++
+						if c, isC := st.Val.(*ssa.Call); !isC || !IsCallTo(c, "errors.New", "fmt.Errorf") {
+							return false
+						}
+					}
+				}
+			}
+		}
+		return n > 0
+	}
+	return false
 }
 
 // threadedSucc: the only successor index of b that can follow when b was entered from `from`; -1 if undetermined.
 func threadedSucc(b, from *ssa.BasicBlock) int {
-	ph, neg, ok := threadable(b)
+	ph, neg, nilcmp, ok := threadableKind(b)
 	if !ok || from == nil {
 		return -1
 	}
@@ -98,12 +153,25 @@ func threadedSucc(b, from *ssa.BasicBlock) int {
 		if p != from {
 			continue
 		}
-		c, isC := ph.Edges[k].(*ssa.Const)
-		if !isC || c.Value == nil || c.Value.Kind() != constant.Bool {
-			return -1
+		e := ph.Edges[k]
+		var t bool
+		if nilcmp {
+			switch {
+			case IsNilConst(e):
+				t = true // phi == nil
+			case KnownNonNil(e):
+				t = false
+			default:
+				return -1
+			}
+		} else {
+			c, isC := e.(*ssa.Const)
+			if !isC || c.Value == nil || c.Value.Kind() != constant.Bool {
+				return -1
+			}
+			t = constant.BoolVal(c.Value)
 		}
-		t := constant.BoolVal(c.Value) != neg
-		if t {
+		if t != neg {
 			return 0
 		}
 		return 1
